@@ -4,7 +4,8 @@ import json, os, sys, subprocess
 ROOT = os.path.dirname(os.path.dirname(os.path.abspath(__file__)))
 sys.path.insert(0, ROOT)
 from checks_table import CHECKS
-from manifest_text import TEXT, NOT_APPLICABLE, ENGINES
+from checks_table import TEXT
+from manifest_text import NOT_APPLICABLE, ENGINES
 
 props = [json.loads(l)["id"] for l in open(os.path.join(ROOT, "properties.jsonl"))]
 hooks = subprocess.run(["git", "-C", "/repo", "log", "--format=%h %s", "1d61b08..HEAD"], stdout=subprocess.PIPE).stdout.decode().splitlines()
